@@ -18,6 +18,14 @@ use crate::{GeneratorType, Tlsh};
 /// Constant temporary buffer size for "easy" functions.
 const BUFFER_SIZE: usize = 1048576;
 
+/// Tests whether the I/O error is a transient interruption
+/// ([`ErrorKind::Interrupted`](std::io::ErrorKind::Interrupted)),
+/// after which the read operation should be retried.
+#[inline(always)]
+fn is_interrupted(err: &std::io::Error) -> bool {
+    err.kind() == std::io::ErrorKind::Interrupted
+}
+
 /// Generates a fuzzy hash from a given reader stream.
 ///
 /// This is a common function grouping buffering part.
@@ -34,7 +42,16 @@ fn hash_stream_common<R: Read, G: GeneratorType>(
 ) -> Result<G::Output, GeneratorOrIOError> {
     let mut buffer = vec![0u8; BUFFER_SIZE];
     loop {
-        let len = reader.read(&mut buffer)?;
+        let len = match reader.read(&mut buffer) {
+            Ok(len) => len,
+            Err(err) => {
+                // A transient interruption is not an error: retry the read.
+                if is_interrupted(&err) {
+                    continue;
+                }
+                return Err(GeneratorOrIOError::IOError(err));
+            }
+        };
         if len == 0 {
             break;
         }
